@@ -95,12 +95,31 @@ vf::CaseResult run_case(const std::string &id, const Program &prog, Stats &st) {
   IoStats is;
   const Op &cfg = prog[0];
   int kind = cfg.a[4] % 4;  // 0,3: polyhedral, 1: tetrahedral, 2: hexahedral
+  // every fifth tetrahedral case uses single-precision positions (Vec3f kernel: float vertex encoding in the file)
+  const bool tet_float = kind == 1 && (cfg.a[3] % 5 == 0);
   std::string fail;
   bool pending_seen = false;
   bool has_cell = false;
   std::vector<IOProp> props;
   if (kind == 1 || kind == 2) {
-    if (kind == 1) {
+    if (tet_float) {
+      GeometricTetrahedralMeshV3f m;
+      build_simplicial(m, prog, false, pending_seen, fail, is);
+      // positions that are not representable in single precision must come back as the stored floats
+      for (auto v : m.vertices()) m.set_vertex(v, m.vertex(v) * 1.1f + Geometry::Vec3f(0.1f, 1e-3f, 3e7f));
+      props = apply_prop_ops(m, prog, res.annot);
+      has_cell = m.n_cells() > 0;
+      if (fail.empty()) fail = ovmb_checks(m, 1, props, cfg, true, is);
+      if (fail.empty()) {  // the float file also reads into a double precision tetrahedral mesh, exactly
+        Bytes bytes;
+        write_ovmb_bytes([&](std::ostream &s) { return IO::ovmb_write(s, m); }, bytes);
+        GeometricTetrahedralMeshV3d back;
+        ++is.cross_type_reads;
+        if (read_ovmb_bytes(bytes, back, true, true) != IO::ReadResult::Ok) fail = "single-precision tetrahedral file is not readable into a double precision mesh";
+        else fail = compare_meshes(m, back, props, false);
+      }
+      st.count("mesh:tetrahedral_vec3f");
+    } else if (kind == 1) {
       GeometricTetrahedralMeshV3d m;
       build_simplicial(m, prog, false, pending_seen, fail, is);
       props = apply_prop_ops(m, prog, res.annot);
@@ -121,7 +140,7 @@ vf::CaseResult run_case(const std::string &id, const Program &prog, Stats &st) {
       has_cell = m.n_cells() > 0;
       if (fail.empty()) fail = ovmb_checks(m, 2, props, cfg, true, is);
     }
-    st.count(kind == 1 ? "mesh:tetrahedral" : "mesh:hexahedral");
+    if (!tet_float) st.count(kind == 1 ? "mesh:tetrahedral" : "mesh:hexahedral");
   } else {
     Interp I;
     I.st = &st;
